@@ -245,6 +245,12 @@ func isoBuild(cfg isoCfg) (*fiber.App, *isoSink) {
 		e4 := c.Bind().Body(&body)
 		m := map[string]string{}
 		e5 := c.Bind().Query(&m)
+		fm := map[string][]string{}
+		_ = c.Bind().Form(&fm)
+		hm := map[string]string{}
+		_ = c.Bind().Header(&hm)
+		cm := map[string]string{}
+		_ = c.Bind().Cookie(&cm)
 		c.Set("X-Hist", "bind")
 		if e1 != nil && c.Query("ret") == "1" {
 			return e1
